@@ -96,6 +96,9 @@ def main(argv=None):
     for uname, a_ in agg.items():
         d = a_["decl"]
         by = summ[uname]
+        if d.prop != a.prop:
+            # a unit shared from another property: only the obligations named for this property count here
+            by = summ[uname] = collections.OrderedDict((k, v) for k, v in by.items() if k.startswith(a.prop + "."))
         assumed |= set(a_["assumed"])
         for fid, info in a_["infos"].items():
             fn_rows[fid] = dict(info, paths=fn_rows.get(fid, {}).get("paths", 0) + len(a_["paths"]))
